@@ -160,7 +160,10 @@ func (hs *Hosts) Add(domain ...string) {
 	}
 }
 
-func (hs *Hosts) Delete(domain string) { hs.tree.Remove(domain) }
+// Delete 删除域名
+//
+// 与 [Hosts.Add] 相同，域名不区分大小写。
+func (hs *Hosts) Delete(domain string) { hs.tree.Remove(strings.ToLower(domain)) }
 
 func (hs *Hosts) emptyHandlerFunc() {}
 
